@@ -23,6 +23,9 @@ def c01(run, tier):
     cfg = run.cfg("Gen_C01.cfg", {"MaxNodes": Q(tier, 4, 5)}, "gen.cfg")
     rep = run.tlc_gen_replay("MC_C01", cfg, "steps", timeout=Q(tier, 300, 1800))
     run.absorb(rep, VALUE_ASPECTS)
+    # 3. code -> spec: random larger documents and multi-step paths, recorded and judged by Trace_Xsel
+    for i in range(Q(tier, 1, 4)):
+        run.trace_validate(["-fam", "paths", "-n", str(Q(tier, 2500, 20000)), "-sub", str(i)], "paths%d" % i)
 
 
 def raise_spec(run, what, out):
